@@ -244,3 +244,157 @@ Proof.
   destruct (unescape_total (du_data d)) as [p Hp]. rewrite Hp. cbn [bind].
   destruct p; eauto.
 Qed.
+
+(* ------------------------------------------------------------------ decoding inverts encoding *)
+(* percent-encoding of every byte: the specification side (RFC 3986 2.1: "%" HEXDIG HEXDIG) *)
+Definition hexdigit (x : N) : N := if (x <? 10)%N then (48 + x)%N else (65 + (x - 10))%N.
+Definition escape_byte (c : N) : list N := [37%N; hexdigit (c / 16); hexdigit (c mod 16)].
+Definition escape_all (s : list N) : list N := flat_map escape_byte s.
+Definition is_byte (c : N) : bool := (c <? 256)%N.
+
+Lemma hexdigit_hex x : (x < 16)%N -> is_hex (hexdigit x) = true /\ unhex (hexdigit x) = x.
+Proof.
+  intros H. unfold hexdigit, is_hex, unhex.
+  destruct (x <? 10)%N eqn:E; split; try lia.
+  - destruct ((48 <=? 48 + x) && (48 + x <=? 57))%N eqn:E1; lia.
+  - destruct ((48 <=? 65 + (x - 10)) && (65 + (x - 10) <=? 57))%N eqn:E1; [lia|].
+    destruct ((97 <=? 65 + (x - 10)) && (65 + (x - 10) <=? 102))%N eqn:E2; [lia|].
+    destruct ((65 <=? 65 + (x - 10)) && (65 + (x - 10) <=? 70))%N eqn:E3; lia.
+Qed.
+
+Lemma unescape_escape_all_aux fuel s acc :
+  forallb is_byte s = true -> (3 * length s < fuel)%nat ->
+  unescape fuel (escape_all s) acc = Ok (Some (rev acc ++ s)).
+Proof.
+  revert s acc. induction fuel as [|f IH]; intros s acc Hb Hf; [lia|].
+  destruct s as [|c s].
+  - cbn. rewrite app_nil_r. reflexivity.
+  - cbn [forallb] in Hb. apply andb_prop in Hb as [Hc Hb]. unfold is_byte in Hc.
+    assert (Hhi : (c / 16 < 16)%N) by (apply N.div_lt_upper_bound; lia).
+    assert (Hlo : (c mod 16 < 16)%N) by (apply N.mod_lt; lia).
+    destruct (hexdigit_hex _ Hhi) as [Hh1 Hu1]. destruct (hexdigit_hex _ Hlo) as [Hh2 Hu2].
+    cbn [escape_all flat_map escape_byte app unescape decode_rune].
+    replace (37 <? 128)%N with true by reflexivity.
+    replace (1 >? 1) with false by reflexivity.
+    replace (37 =? 37)%N with true by reflexivity.
+    rewrite Hh1, Hh2. cbn [negb]. rewrite Hu1, Hu2.
+    fold (escape_all s).
+    rewrite IH; [|exact Hb|cbn [length] in Hf; lia].
+    cbn [rev]. rewrite <- app_assoc. cbn [app].
+    replace ((c mod 16 + c / 16 * 16) mod 256)%N with c; [reflexivity|].
+    pose proof (N.div_mod c 16 ltac:(lia)). rewrite N.mod_small; lia.
+Qed.
+
+Theorem unescape_escape_all s :
+  forallb is_byte s = true -> unescape_bytes (escape_all s) = Ok (Some s).
+Proof.
+  intros Hb. unfold unescape_bytes.
+  rewrite unescape_escape_all_aux; [reflexivity|exact Hb|].
+  unfold escape_all. clear Hb. induction s as [|c s IH]; cbn [flat_map escape_byte app length]; lia.
+Qed.
+
+Lemma index_app_off {A} site (pre l : list A) k :
+  0 <= k -> index site (pre ++ l) (len pre + k) = index site l k.
+Proof.
+  intros Hk. unfold index, len.
+  destruct (Z.of_nat (length pre) + k <? 0) eqn:E1; [lia|].
+  destruct (k <? 0) eqn:E2; [lia|].
+  replace (Z.to_nat (Z.of_nat (length pre) + k)) with (length pre + Z.to_nat k)%nat by lia.
+  rewrite nth_error_app2 by lia.
+  replace (length pre + Z.to_nat k - length pre)%nat with (Z.to_nat k) by lia. reflexivity.
+Qed.
+
+Lemma len_app {A} (a b : list A) : len (a ++ b) = len a + len b.
+Proof. unfold len. rewrite app_length. lia. Qed.
+
+Lemma pu_count_escape_all s : forall pre n fuel,
+  forallb is_byte s = true -> (3 * length s < fuel)%nat ->
+  pu_count fuel (pre ++ escape_all s) (len pre) n = Ok (Some (n + len s)).
+Proof.
+  induction s as [|c s IH]; intros pre n fuel Hb Hf.
+  - destruct fuel; [lia|]. cbn [escape_all flat_map pu_count]. rewrite app_nil_r.
+    replace (len pre <? len pre) with false by lia. rewrite len_nil. f_equal. f_equal. lia.
+  - destruct fuel as [|f]; [lia|].
+    cbn [forallb] in Hb. apply andb_prop in Hb as [Hc Hb]. unfold is_byte in Hc.
+    assert (Hhi : (c / 16 < 16)%N) by (apply N.div_lt_upper_bound; lia).
+    assert (Hlo : (c mod 16 < 16)%N) by (apply N.mod_lt; lia).
+    destruct (hexdigit_hex _ Hhi) as [Hh1 _]. destruct (hexdigit_hex _ Hlo) as [Hh2 _].
+    cbn [escape_all flat_map escape_byte app]. fold (escape_all s).
+    set (h1 := hexdigit (c / 16)) in *. set (h2 := hexdigit (c mod 16)) in *.
+    set (rest := escape_all s).
+    cbn [pu_count].
+    assert (Hlen : len (pre ++ 37%N :: h1 :: h2 :: rest) = len pre + 3 + len rest)
+      by (rewrite len_app, !len_cons; lia).
+    pose proof (len_nonneg rest).
+    replace (len pre <? len (pre ++ 37%N :: h1 :: h2 :: rest)) with true by lia.
+    assert (H701 : index 701 (pre ++ 37%N :: h1 :: h2 :: rest) (len pre) = Ok 37%N).
+    { replace (len pre) with (len pre + 0) by lia. rewrite index_app_off by lia. reflexivity. }
+    assert (H702 : index 702 (pre ++ 37%N :: h1 :: h2 :: rest) (len pre + 1) = Ok h1).
+    { rewrite index_app_off by lia. reflexivity. }
+    assert (H703 : index 703 (pre ++ 37%N :: h1 :: h2 :: rest) (len pre + 2) = Ok h2).
+    { rewrite index_app_off by lia. reflexivity. }
+    rewrite H701. cbn [bind].
+    replace (37 =? 37)%N with true by reflexivity.
+    replace (len pre + 2 >=? len (pre ++ 37%N :: h1 :: h2 :: rest)) with false by lia.
+    rewrite H702. cbn [bind]. rewrite Hh1. cbn [negb].
+    rewrite H703. cbn [bind]. rewrite Hh2. cbn [negb].
+    replace (pre ++ 37%N :: h1 :: h2 :: rest) with ((pre ++ [37%N; h1; h2]) ++ rest)
+      by (rewrite <- app_assoc; reflexivity).
+    replace (len pre + 3) with (len (pre ++ [37%N; h1; h2])) by (rewrite len_app; cbn; lia).
+    rewrite IH; [|exact Hb|cbn [length] in Hf; lia].
+    f_equal. f_equal. rewrite len_cons. lia.
+Qed.
+
+Lemma pu_build_escape_all s : forall pre acc fuel,
+  forallb is_byte s = true -> (3 * length s < fuel)%nat ->
+  pu_build fuel (pre ++ escape_all s) (len pre) acc = Ok (rev acc ++ s).
+Proof.
+  induction s as [|c s IH]; intros pre acc fuel Hb Hf.
+  - destruct fuel; [lia|]. cbn [escape_all flat_map pu_build]. rewrite !app_nil_r.
+    replace (len pre <? len pre) with false by lia. reflexivity.
+  - destruct fuel as [|f]; [lia|].
+    cbn [forallb] in Hb. apply andb_prop in Hb as [Hc Hb]. unfold is_byte in Hc.
+    assert (Hhi : (c / 16 < 16)%N) by (apply N.div_lt_upper_bound; lia).
+    assert (Hlo : (c mod 16 < 16)%N) by (apply N.mod_lt; lia).
+    destruct (hexdigit_hex _ Hhi) as [_ Hu1]. destruct (hexdigit_hex _ Hlo) as [_ Hu2].
+    cbn [escape_all flat_map escape_byte app]. fold (escape_all s).
+    set (h1 := hexdigit (c / 16)) in *. set (h2 := hexdigit (c mod 16)) in *.
+    set (rest := escape_all s).
+    cbn [pu_build].
+    assert (Hlen : len (pre ++ 37%N :: h1 :: h2 :: rest) = len pre + 3 + len rest)
+      by (rewrite len_app, !len_cons; lia).
+    pose proof (len_nonneg rest).
+    replace (len pre <? len (pre ++ 37%N :: h1 :: h2 :: rest)) with true by lia.
+    assert (H706 : index 706 (pre ++ 37%N :: h1 :: h2 :: rest) (len pre) = Ok 37%N).
+    { replace (len pre) with (len pre + 0) by lia. rewrite index_app_off by lia. reflexivity. }
+    assert (H707 : index 707 (pre ++ 37%N :: h1 :: h2 :: rest) (len pre + 1) = Ok h1).
+    { rewrite index_app_off by lia. reflexivity. }
+    assert (H708 : index 708 (pre ++ 37%N :: h1 :: h2 :: rest) (len pre + 2) = Ok h2).
+    { rewrite index_app_off by lia. reflexivity. }
+    rewrite H706. cbn [bind].
+    replace (37 =? 37)%N with true by reflexivity.
+    rewrite H707. cbn [bind]. rewrite H708. cbn [bind]. rewrite Hu1, Hu2.
+    replace (pre ++ 37%N :: h1 :: h2 :: rest) with ((pre ++ [37%N; h1; h2]) ++ rest)
+      by (rewrite <- app_assoc; reflexivity).
+    replace (len pre + 3) with (len (pre ++ [37%N; h1; h2])) by (rewrite len_app; cbn; lia).
+    rewrite IH; [|exact Hb|cbn [length] in Hf; lia].
+    cbn [rev]. rewrite <- app_assoc. cbn [app].
+    replace (c / 16 * 16 + c mod 16)%N with c; [reflexivity|].
+    pose proof (N.div_mod c 16 ltac:(lia)). lia.
+Qed.
+
+Lemma escape_all_length s : length (escape_all s) = (3 * length s)%nat.
+Proof. unfold escape_all. induction s as [|c s IH]; cbn [flat_map escape_byte app length]; lia. Qed.
+
+(* utils.Unquote / url.PathUnescape inverts the percent-encoding of every byte string *)
+Theorem unquote_escape_all s : forallb is_byte s = true -> unquote (escape_all s) = Ok s.
+Proof.
+  intros Hb. unfold unquote, path_unescape.
+  pose proof (pu_count_escape_all s [] 0 (S (length (escape_all s))) Hb) as Hc.
+  cbn [app len length Z.of_nat] in Hc. rewrite Hc by (rewrite escape_all_length; lia). cbn [bind].
+  destruct (0 + len s =? 0) eqn:E.
+  - assert (s = []) by (destruct s; [reflexivity|rewrite len_cons in E; pose proof (len_nonneg s); lia]).
+    subst. reflexivity.
+  - pose proof (pu_build_escape_all s [] [] (S (length (escape_all s))) Hb) as Hbd.
+    cbn [app len length Z.of_nat rev] in Hbd. rewrite Hbd by (rewrite escape_all_length; lia). reflexivity.
+Qed.
